@@ -131,7 +131,8 @@ def run(program, rep, tier):
                 rep.inconclusive('C20.init', site, '__init__',
                                  f'{len(istores)} stores of {backing}')
                 continue
-            iv = istores[0].value
+            from rules.evrules import beta_reduce
+            iv = beta_reduce(program, c, istores[0].value)
             via_setter = any(norm(t) == f'self.{prop}' for t in (
                 istores[0].targets if isinstance(istores[0], ast.Assign)
                 else [istores[0].target]))
